@@ -10,7 +10,8 @@ SPEC = dict(
          '(hash, level, login id, MAC). Distinct = case name; all cases reach the oracle (success iff honest; result signature re-parsed and evaluated by the reference). '
          'Further: the older entry points KSI_Signature_createAggregated / KSI_Signature_create; status codes wider than 32 bits; a reported level correction just below 2^64 that wraps when the requested level is added; the completed asynchronous handle is asked for its signature twice. '
          'Server behaviour error-payload-with-response (authentic PDU with an error payload after / in front of the honest response). '
-         'Inconsistent body: authentication / publication record without the calendar chain.',
+         'Inconsistent body: authentication / publication record without the calendar chain.'
+         ' Server behaviour config-payload-with-response (the aggregator\'s configuration after / in front of the honest response in one authentic PDU: still a success). Part sign-confreq: one asynchronous request asking for a signature and the configuration (hash, level and configuration request on the wire; reply with both in one PDU).',
     bounds=dict(
         quick='KSI_Signature_signAggregationChain with a one-link local chain at input levels {0,1,3,17,200} x link correction {0,2} x 2 transports; server behaviours now include chains listed top-first and reply ids that differ from the request id only in the upper 32 bits; every behaviour (with all sub-variants) x 3 interfaces x 2 transports x levels {0,2} with one shape/algorithm per behaviour; PDU v1 for honest/foreign/stale/other-version; SHA-1 refusal on 4 interfaces x 2 transports',
         thorough='full product shape(6) x tail(3) x behaviour for SHA-256 at levels {0,2}, v2; all 4 trusted algorithms and levels {0,1,2,254,255} with one shape per behaviour; v1 with one shape per behaviour'),
